@@ -796,6 +796,7 @@ def build_tools(ctx, stats):
     if r.returncode != 0:
         raise vlib.CheckFailure("cannot build shim_c02_time.so: " + r.stderr[-1000:])
     out["timeshim"] = shim
+    stats["clock_selftest"] = time_selftest(ctx, shim)
     # locale / time zone / environment shim (harness/shim_c02_locale.c) and the proof that it is bound and answers as documented
     lshim = ctx.scratch / "shim_c02_locale.so"
     r = vlib.sh(["gcc", "-O1", "-shared", "-fPIC", "-w", str(vlib.HARNESS / "shim_c02_locale.c"), "-o", str(lshim), "-ldl"])
@@ -940,6 +941,65 @@ def sha_file(p):
         return "<no image>"
 
 
+TIME_SELFTEST_CALLS = ["time", "time", "gettimeofday", "clock_gettime", "clock_gettime", "timespec_get", "ftime"]
+
+
+def read_time_log(p):
+    """record file of harness/shim_c02_time.c -> {"bound": [exe names], "reads": [entry points read by a process that is not
+    taskset]}; None when the file is missing, unreadable or holds a line that is not a record (never "0 reads")"""
+    try:
+        text = Path(p).read_text()
+    except (OSError, UnicodeDecodeError):
+        return None
+    res = {"bound": [], "reads": []}
+    for line in text.splitlines():
+        tok = line.split()
+        try:
+            kv = dict(t.split("=", 1) for t in tok[1:])
+            if tok[0] == "bound":
+                res["bound"].append(kv["exe"])
+            elif tok[0] == "read":
+                if kv["exe"] != "taskset":
+                    res["reads"].append(kv["fn"])
+            else:
+                return None
+        except (IndexError, KeyError, ValueError):
+            return None
+    return res
+
+
+def time_selftest(ctx, shim):
+    """the proof that the clock shim is bound and answers the faked wall clock behind every entry point it hooks: harness/
+    c02_time_selftest.c under the packers' LD_PRELOAD / C02_FAKE_TIME / C02_TIME_LOG environment, at two different fake times"""
+    st = ctx.scratch / "c02_time_selftest"
+    r = vlib.sh(["gcc", "-O1", "-w", str(vlib.HARNESS / "c02_time_selftest.c"), "-o", str(st)])
+    if r.returncode != 0:
+        raise vlib.CheckFailure("cannot build c02_time_selftest: " + r.stderr[-1000:])
+    log = ctx.scratch / "c02_time_selftest.log"
+    outs = []
+    for ft in ("86399", "4102444800"):
+        if log.exists():
+            log.unlink()
+        e = dict(os.environ)
+        e.update({"LD_PRELOAD": str(shim), "C02_FAKE_TIME": ft, "C02_TIME_LOG": str(log), "TZ": "UTC"})
+        r = vlib.sh([str(st)], env=e, timeout=60)
+        want = ("time=%s time_arg=%s gettimeofday=%s.000000 clock_gettime=%s.000000000 clock_gettime_coarse=%s timespec_get=%s.000000000 "
+                "base_ok=1 ftime=%s monotonic_advances=1" % ((ft,) * 7))
+        tl = read_time_log(log)
+        if r.returncode != 0 or r.stdout.strip() != want or tl is None or tl["bound"] != ["c02_time_selftest"] or tl["reads"] != TIME_SELFTEST_CALLS:
+            raise vlib.CheckFailure("the clock shim is not in effect: self test (C02_FAKE_TIME=%s) printed %r (want %r), record file %r (want one "
+                                    "bound record of c02_time_selftest and the reads %r)" % (ft, r.stdout.strip(), want, tl, TIME_SELFTEST_CALLS))
+        outs.append(r.stdout.strip())
+    # and without the library the program sees the real clock: the expected text above is not what an unbound run prints
+    e = dict(os.environ)
+    e.pop("LD_PRELOAD", None)
+    r = vlib.sh([str(st)], env=e, timeout=60)
+    if r.stdout.strip() in outs or "time=" not in r.stdout:
+        raise vlib.CheckFailure("c02_time_selftest without the clock shim printed %r: the self test does not tell a bound shim from none" % r.stdout.strip())
+    return {"fake_times": ["86399", "4102444800"], "output": outs[0], "records_per_run": 1 + len(TIME_SELFTEST_CALLS), "entry_points": sorted(set(TIME_SELFTEST_CALLS)),
+            "monotonic_clock_stays_real": True}
+
+
 def read_locale_log(p):
     try:
         return dict(kv.split("=", 1) for kv in Path(p).read_text().split())
@@ -986,7 +1046,22 @@ def tool_level(ctx, stats):
     handoffs = delays = untraced = unperturbed = 0
     loc = {"runs": 0, "image_mismatches": 0, "calls": {}, "setlocale_args": set(), "env_names": set(), "log_missing": 0}
     tsan_runs = tsan_reports = 0
-    time_calls = 0
+    tlog = ctx.scratch / "c02_time.log"
+    clock = {"runs": 0, "bound": 0, "log_unreadable": 0, "unbound": 0, "reads": {}}
+
+    def clock_account(log, exe):
+        """one packer run under the clock shim: the record file must be readable and hold the `bound` record of that packer"""
+        clock["runs"] += 1
+        tl = read_time_log(log)
+        if tl is None:
+            clock["log_unreadable"] += 1
+            return
+        if exe in tl["bound"]:
+            clock["bound"] += 1
+        else:
+            clock["unbound"] += 1
+        for fn in tl["reads"]:
+            clock["reads"][fn] = clock["reads"].get(fn, 0) + 1
     samples = []
     ncpu = len(os.sched_getaffinity(0))
     for ci in range(ncases):
@@ -1046,7 +1121,9 @@ def tool_level(ctx, stats):
                         variant = "plain"
                         env["LD_PRELOAD"] = str(builds["timeshim"])
                         env["C02_FAKE_TIME"] = str(rng.choice([0, 86399, 1234567890, 4102444800]))
-                        env["C02_TIME_LOG"] = str(ctx.scratch / "c02_time.log")
+                        env["C02_TIME_LOG"] = str(tlog)
+                        if tlog.exists():
+                            tlog.unlink()
                     trace = ctx.scratch / "c02_trace.txt"
                     if trace.exists():
                         trace.unlink()
@@ -1071,10 +1148,7 @@ def tool_level(ctx, stats):
                             overtakes += 1
                         worker_counts.add(tr.get("workers"))
                     if variant == "plain":
-                        try:
-                            time_calls += int((ctx.scratch / "c02_time.log").read_text().strip() or 0)
-                        except Exception:
-                            pass
+                        clock_account(tlog, Path(cmd[0]).name)
                     why = None
                     if rc != 0:
                         why = "packer failed (rc=%s): %s" % (rc, err[-300:])
@@ -1137,7 +1211,9 @@ def tool_level(ctx, stats):
                     if out.exists():
                         out.unlink()
                     cmd, stdin = tool_cmd(builds, "plain", flavour, inp, out, comp, common + ["-j", "3"])
-                    e = {"LD_PRELOAD": str(builds["timeshim"]), "C02_FAKE_TIME": ft, "TZ": rng.choice(ENV_CHOICES["TZ"])}
+                    if tlog.exists():
+                        tlog.unlink()
+                    e = {"LD_PRELOAD": str(builds["timeshim"]), "C02_FAKE_TIME": ft, "C02_TIME_LOG": str(tlog), "TZ": rng.choice(ENV_CHOICES["TZ"])}
                     env_full = ctx.san_env(e)
                     env_full.pop("SOURCE_DATE_EPOCH", None)
                     f = open(stdin, "rb") if stdin else subprocess.DEVNULL
@@ -1149,6 +1225,7 @@ def tool_level(ctx, stats):
                     if stdin:
                         f.close()
                     shas.append((rc_clock, sha_file(out)))
+                    clock_account(tlog, Path(cmd[0]).name)
                     runs += 1
                 if shas[0] != shas[1] or shas[0][0] != 0:
                     bad += 1
@@ -1197,6 +1274,14 @@ def tool_level(ctx, stats):
                           untraced, unperturbed, delays, loc["log_missing"]),
                       {"kind": "infra", "untraced": untraced, "unperturbed": unperturbed, "delays": delays, "locale_log_missing": loc["log_missing"]},
                       found_input=False)
+    if clock["runs"] == 0 or clock["bound"] != clock["runs"]:
+        bad += 1
+        ctx.violation("infra:tool-instrumentation-missing",
+                      "tool level: of %d packer runs under the clock shim (LD_PRELOAD harness/shim_c02_time.c) %d left no readable record file and %d "
+                      "record files lack the `bound` record of the packer process: the faked wall clock was not in effect there, `0 clock reads` "
+                      "says nothing" % (clock["runs"], clock["log_unreadable"], clock["unbound"]),
+                      {"kind": "infra", "clock_shim_runs": clock["runs"], "clock_shim_bound_runs": clock["bound"],
+                       "clock_log_unreadable": clock["log_unreadable"], "clock_shim_unbound": clock["unbound"]}, found_input=False)
     missing = [c for c in COMPRESSORS if c not in comps_seen]
     if missing:
         bad += 1
@@ -1225,7 +1310,12 @@ def tool_level(ctx, stats):
         "compressor_options": sorted(xopts_seen)[:40], "compressors_used": sorted(comps_seen), "perturbation_delays_applied": delays,
         "locale": stats.get("locale", {}), "data_area_beyond_4GiB": stats.get("big", "thorough tier only"), "worker_counts_seen": sorted(worker_counts, key=lambda x: int(x or 0)),
         "tsan_build": stats.get("tsan_build"), "tsan_runs": tsan_runs, "tsan_reports": tsan_reports,
-        "clock_reads_intercepted": time_calls, "source_date_epoch_cases": stats.get("sde_cases", 0),
+        "clock_reads_intercepted": sum(clock["reads"].values()), "clock_reads_by_entry_point": dict(sorted(clock["reads"].items())),
+        "clock_shim_runs": clock["runs"], "clock_shim_bound_runs": clock["bound"], "clock_shim_logs_unreadable": clock["log_unreadable"],
+        "clock_selftest": stats.get("clock_selftest"),
+        "clock_shim_scope": "time, gettimeofday, clock_gettime(CLOCK_REALTIME/_COARSE/TAI), timespec_get, ftime; a raw syscall or a direct vDSO "
+                            "call is not intercepted (the packers contain neither)",
+        "source_date_epoch_cases": stats.get("sde_cases", 0),
         "environment": "TZ x LC_ALL x umask x cwd x CPU affinity (taskset) x faked clock (LD_PRELOAD) x SOURCE_DATE_EPOCH fixed",
         "wall_s": round(time.time() - t0, 1)}
     stats["evaluations"] += runs
@@ -1459,6 +1549,7 @@ def replay(ctx, path):
         env = dict(rp["env"])
         if "LD_PRELOAD" in env:
             env["LD_PRELOAD"] = str(builds["timeshim"])
+            env["C02_TIME_LOG"] = str(ctx.scratch / "c02_time.log")
         env["C02_TRACE_FILE"] = str(ctx.scratch / "c02_trace.txt")
         cwd = rp["cwd"] if os.path.isdir(rp["cwd"]) else str(ctx.scratch)
         cmd, stdin = tool_cmd(builds, rp["variant"], rp["flavour"], inp, out, rp["comp"], common + rp["extra"])
